@@ -38,6 +38,13 @@ def targets(ctx):
             chunks.insert(at, zckref.Chunk(b"\xaa" * len(p.chunks[0].digest), 0, 0, b"\xaa" * len(p.chunks[0].digest) if p.flags & 4 else None))
             h = zckref.Header(p.htype, p.ctype, p.flags, p.comp, chunks, p.data_digest)
             out.append(("ref:%s:%s:empty-entry@%d" % (w, c.name(), at), h.build() + f[p.header_len:], False))
+    # value-dependent shapes: a chunk whose digest begins with 0x00 (its twin state is added in run()), and a file whose
+    # data digest begins with 0x00 (its wrong-data-digest twin differs only in the last digest byte)
+    for c in (Cfg(0, b"", 0, 3, 1), Cfg(2, b"", 0, 1, 1), Cfg(2, D, 1, 2, 1)):
+        good, mut, content, ci, limit, Q = universe.twin_file(c, ctx.seed)
+        out.append(("ref:twin:%s" % c.name(), good, False))
+    for c in (Cfg(0, b"", 0, 3, 1), Cfg(2, b"", 0, 3, 0)):
+        out.append(("ref:zero-data-digest:%s" % c.name(), universe.zero_data_file(c, ctx.seed), False))
     # detached twins of two of them (only the dictionary is scanned)
     for (w, c), f in list(zip(specs, files))[2:4]:
         out.append(("lib:%s:%s:detached" % (w, c.name()), universe.detach(f), True))
@@ -89,8 +96,10 @@ def wrong_data_digest(base):
     p = zckref.parse(base)
     if p.flags & 4 or p.detached:
         return None
-    h = zckref.Header(p.htype, p.ctype, p.flags, p.comp, [zckref.Chunk(c.digest, c.clen, c.ulen, c.udigest) for c in p.chunks],
-                      bytes([p.data_digest[0] ^ 1]) + p.data_digest[1:])
+    dd = bytes([p.data_digest[0] ^ 1]) + p.data_digest[1:]
+    if p.data_digest[0] == 0:
+        dd = p.data_digest[:-1] + bytes([p.data_digest[-1] ^ 0x10])     # equal up to and beyond the 0x00 byte
+    h = zckref.Header(p.htype, p.ctype, p.flags, p.comp, [zckref.Chunk(c.digest, c.clen, c.ulen, c.udigest) for c in p.chunks], dd)
     return h.build() + base[p.header_len:]
 
 
@@ -212,6 +221,9 @@ def run(ctx):
         w = wrong_data_digest(base)
         if w:
             sts.append(("wrong-data-digest", w))
+        if name.startswith("ref:twin:"):
+            c = [c for c in (Cfg(0, b"", 0, 3, 1), Cfg(2, b"", 0, 1, 1), Cfg(2, universe.DELTA_DICT, 1, 2, 1)) if "ref:twin:%s" % c.name() == name][0]
+            sts.append(("twin-replaced", universe.twin_file(c, ctx.seed)[1]))
         nstates += len(sts)
         for ch in core.chunks(sts, 40):
             jobs.append((name, base, detached, ch, hists))
